@@ -106,6 +106,8 @@ func (g *G) genType(c *objCase, o genOpts, depth int) *TD {
 			kt = c.env.mustParseType("(nm 3 s)")
 		} else if o.transforms && g.chance(0.15) {
 			kt = c.zooTransform(16, o) // TrKey struct keys via transform to string
+		} else if o.bad && g.chance(0.2) {
+			kt = &TD{k: "i", rt: primKinds["i"]} // a key type that has no string form: an error, both ways
 		}
 		t := &TD{k: "mp", key: kt, elem: el, rt: reflect.MapOf(kt.rt, el.rt)}
 		if g.chance(0.25) && !c.hasEntry(t) {
@@ -583,6 +585,10 @@ func (g *G) genKey(c *objCase, kt *TD) reflect.Value {
 	}
 	if tt.k == "s" {
 		v.SetString(keyNamePool[g.intn(len(keyNamePool))])
+		return v
+	}
+	if tt.k == "i" {
+		v.SetInt(int64(g.intn(5)))
 		return v
 	}
 	// TrKey
